@@ -20,6 +20,7 @@ RULE = ("One case = an operation (+ - * / ** neg == value(unit); ufuncs sqrt cbr
         "every operand taken before the operation must be reported unchanged after it (returned or raised), and after "
         "every in-place call on object X every OTHER object (operands and result) must report its snapshot. "
         "Non-trivial: operands in different units, or logarithmic units, or Decimal mixed with float, or an angle "
+        "Round 4: temperature operands (K, Cel, degF, degR arrays); a query answered once, then again after an unrelated Decimal quantity used the same unit strings. "
         "function on non-radian input, and the operation did not raise. Distinct = distinct case JSON.")
 ASSUMPTIONS = [
     "a float operand that comes back as an equal Decimal (or vice versa) is NOT counted as altered (same value)",
